@@ -286,7 +286,10 @@ class Gen:
         if k == "v1get":
             path = r.choice([s[1] for s in self.sigs] + ["Vehicle", "Vehicle.*", "**", "Vehicle.Cabin", "Vehicle.**.Left",
                                                          "", "Vehicle..X", "Nope", "Vehicle.ADAS.*.IsEnabled", "*.*"])
-            L.append([V1GET, p, r.choice([0, 1, 1, 2, 3, 3, 20, 10, 7])] + E.s(path))
+            # one request in three names fields explicitly (Value / ActuatorTarget / Metadata) beside the view
+            mask = [r.choice([1, 2, 3, 4, 5, 6, 7, 8 + 1, 16 + 1, 32 + 2, 64 + 1, 16 + 64 + 1, 8 + 16, 32, 8 + 16 + 32 + 3,
+                              r.randrange(128)])] if r.random() < 0.4 else []
+            L.append([V1GET, p, r.choice([0, 1, 1, 2, 3, 3, 20, 10, 10, 7])] + E.s(path) + mask)
         elif k == "v1set":
             n = r.choice([1, 1, 2, 3])
             body = []
@@ -370,10 +373,17 @@ class Gen:
             # (wildcard selection is the glob family's subject)
             leaves = [s[1] for s in self.sigs]
             branches = sorted({".".join(x.split(".")[:n]) for x in leaves for n in range(1, x.count(".") + 1)})
-            c = r.random()
-            path = (r.choice(leaves) if c < 0.6 and leaves else r.choice(branches) if c < 0.85 and branches else
-                    r.choice(["Vehicle.Nope", "Vehicle..X", "A" * 1001, "", "Vehicle. X"]))
-            L.append([V1SUB, p, r.choice([1, 1, 1, 2, 3, 3, 5, 7, 0])] + E.s(path))
+            n = r.choice([1, 1, 1, 2, 2, 3])
+            chosen, body = [], []
+            for _ in range(n):
+                c = r.random()
+                path = (r.choice(leaves) if c < 0.6 and leaves else r.choice(branches) if c < 0.88 and branches else
+                        r.choice(["Vehicle.Nope", "Vehicle..X", "A" * 1001, "", "Vehicle. X"]))
+                if path in chosen:
+                    continue                      # the handler keys its entries by path: no duplicates
+                chosen.append(path)
+                body += [r.choice([1, 1, 1, 2, 3, 3, 5, 7, 0])] + E.s(path)
+            L.append([V1SUB, p, len(chosen)] + body)
             self.subs += 1
         elif k == "v2sub":
             # kuksa.val.v2 Subscribe (paths) / SubscribeById (ids) with a buffer size
@@ -631,7 +641,8 @@ def show_api(l):
     try:
         op = l[0]
         if op == V1GET:
-            return "view=%d path=%r" % (l[2], _str(l, 3)[0][:60])
+            path, j = _str(l, 3)
+            return "view=%d path=%r%s" % (l[2], path[:60], " fields-mask=%d" % l[j] if j < len(l) else "")
         if op == V1SET:
             out, i = [], 3
             for _ in range(l[2]):
@@ -694,8 +705,12 @@ def show_api(l):
                 out.append("id%d=%s" % (x, v))
             return "[" + "; ".join(out) + "]"
         if op == V1SUB:
-            return "fields=%s path=%r" % ("+".join(n for b, n in ((1, "value"), (2, "target"), (4, "unit")) if l[2] & b) or "none",
-                                           _str(l, 3)[0][:60])
+            out, i = [], 3
+            for _ in range(l[2]):
+                path, j = _str(l, i + 1)
+                out.append("%r fields=%s" % (path[:60], "+".join(n for b, n in ((1, "value"), (2, "target"), (4, "unit")) if l[i] & b) or "none"))
+                i = j
+            return "[" + "; ".join(out) + "]"
         if op == V2SUB:
             out, i = [], 4
             for _ in range(l[3]):
@@ -805,6 +820,25 @@ def canon_messages(out):
         except (IndexError, TypeError):
             res.append(l)
     return res
+
+
+def same_handler_subs(lines, m, i):
+    """model and implementation agree on a history with handler subscriptions: messages compared in their v1
+    wire form (canon_messages); a v1 Subscribe with several entries of which more than one fails may report any
+    of their errors (the handler walks a HashMap), so two refusals are not compared by code"""
+    cm, ci = canon_messages(m), canon_messages(i)
+    if cm == ci:
+        return True
+    am, ai = split_outputs(lines, cm), split_outputs(lines, ci)
+    if am is None or ai is None or len(am) != len(ai):
+        return False
+    for (d, om), (_d, oi) in zip(am, ai):
+        if om == oi:
+            continue
+        if d["op"] == V1SUB and d["raw"][2] >= 2 and om[0][:1] == [1] and oi[0][:1] == [1]:
+            continue
+        return False
+    return True
 
 
 def dec_dump(ls):
@@ -1005,6 +1039,65 @@ def normalize(d, o, byname, meta):
                     ts = first[j]
                 res.append(({"name": "GET", "op": GET, "p": p, "id": i, "value_only": True},
                             [[0] + E.val(*val) + [ts, 0]]))
+        elif op == V2GETS:
+            # a served GetValues is one read per requested signal, in request order
+            sids, i = [], 3
+            for _ in range(l[2]):
+                sid, i = _read_sig(l, i, byname)
+                sids.append(sid)
+            if first[0] == 0 and len(first) >= 2 and first[1] == len(sids) and None not in sids:
+                j = 2
+                for sid in sids:
+                    val = (E.NA, None)
+                    if first[j] == 1:
+                        val, j = E.dec_val(first, j + 1)
+                    else:
+                        j += 1
+                    ts = first[j]
+                    j += 1
+                    res.append(({"name": "GET", "op": GET, "p": p, "id": sid, "value_only": True, "via": "v2 GetValues"},
+                                [[0] + E.val(*val) + [ts, 0]]))
+        elif op == SDVGET:
+            if first[0] == 0:
+                for row in o[1:]:
+                    if row[0] != 204:
+                        continue
+                    name, j = _str(row, 1)
+                    sid = byname.get(name)
+                    if sid is None or row[j] != 1:
+                        continue
+                    val = (E.NA, None)
+                    if row[j + 1] == 1:
+                        val, k = E.dec_val(row, j + 2)
+                    else:
+                        k = j + 2
+                    res.append(({"name": "GET", "op": GET, "p": p, "id": sid, "value_only": True, "via": "sdv GetDatapoints"},
+                                [[0] + E.val(*val) + [row[k], 0]]))
+        elif op == V1GET:
+            # every entry of a served Get that carries a value or a target value is a read of that signal
+            if len(first) == 2 and first[0] == 0:
+                for row in o[1:]:
+                    if row[0] != 203:
+                        continue
+                    sid, j = row[1], 2
+                    got_v = got_t = None
+                    if row[j] == 1:
+                        if row[j + 1] == 1:
+                            v_, k = E.dec_val(row, j + 2)
+                        else:
+                            v_, k = (E.NA, None), j + 2
+                        got_v = (v_, row[k])
+                        j = k + 1
+                    else:
+                        j += 1
+                    if row[j] == 1:
+                        got_t = True
+                    if got_v is not None:
+                        res.append(({"name": "GET", "op": GET, "p": p, "id": sid, "value_only": True, "via": "v1 Get"},
+                                    [[0] + E.val(*got_v[0]) + [got_v[1], 0]]))
+                    elif got_t:
+                        res.append(({"name": "GET", "op": GET, "p": p, "id": sid, "value_only": True, "target_only": True,
+                                     "via": "v1 Get"}, [[0, 0, -9, 0]]))
         elif op in (V2ACT,):
             i, j = _read_sig(l, 2, byname)
             v, _ = _read_oov(l, j)
@@ -1074,15 +1167,22 @@ def normalize(d, o, byname, meta):
             # an accepted handler subscription is the core subscription of the selected signals
             if first[0] != 0:
                 return []
-            path, _ = _str(l, 3)
-            if path == "":
-                ids = sorted(byname.values())          # the empty pattern selects everything
-            elif path in byname:
-                ids = [byname[path]]
-            else:
-                ids = sorted(i for n, i in byname.items() if n.startswith(path + "."))
-            res.append(({"name": "SUB", "op": SUB, "p": p, "buf": None, "entries": [(i, l[2] & 7) for i in ids],
-                         "via": "v1"}, [first]))
+            want, i = {}, 3
+            for _ in range(l[2]):
+                mask = l[i] & 7
+                path, i = _str(l, i + 1)
+                if len(path.encode()) > 1000 or ".." in path or " " in path:
+                    continue                           # over-long and invalid entries are skipped by the handler
+                if path == "":
+                    ids = sorted(byname.values())      # the empty pattern selects everything
+                elif path in byname:
+                    ids = [byname[path]]
+                else:
+                    ids = sorted(x for n, x in byname.items() if n.startswith(path + "."))
+                for x in ids:
+                    want[x] = want.get(x, 0) | mask    # a signal selected twice: the union of the fields
+            res.append(({"name": "SUB", "op": SUB, "p": p, "buf": None, "entries": sorted(want.items()), "via": "v1"},
+                        [first]))
         elif op == V2SUB:
             if first[0] != 0:
                 return []
@@ -1165,11 +1265,22 @@ def meta_check(d, o, meta):
                         else:
                             _, j = E.dec_val(l, i + 2)
                             i = j + 1
+                # which parts of the metadata the request names (view, explicit fields): an unnamed part keeps
+                # its proto default and is not a statement about the signal
+                raw = d["raw"]
+                _path, jm = _str(raw, 3)
+                mask = raw[jm] if jm < len(raw) else 0
+                every = bool(mask & 4) or raw[2] in (3, 20)
+                want_dt, want_et, want_r = every or bool(mask & 8), every or bool(mask & 16), every or bool(mask & 32)
+                if l[i] == 0 and (want_dt or want_et or want_r):
+                    fails.append("C15-meta: V1GET returned %s without the metadata the request names" % m["path"])
                 if l[i] == 1:
-                    if l[i + 1] != KUKSA_DT[m["dtype"]]:
+                    if want_dt and l[i + 1] != KUKSA_DT[m["dtype"]]:
                         fails.append("C15-meta: V1GET reports data type %d for %s" % (l[i + 1], E.DATA_TYPES[m["dtype"]]))
-                    if l[i + 2] != KUKSA_ET[m["etype"]]:
+                    if want_et and l[i + 2] != KUKSA_ET[m["etype"]]:
                         fails.append("C15-meta: V1GET reports entry type %d for entry type %d" % (l[i + 2], m["etype"]))
+                    if not want_r:
+                        continue
                     fam = l[i + 3]
                     k = V.NAT[m["dtype"]][0]
                     expfam = {E.STR: 1, E.I32: 2, E.I64: 2, E.U32: 3, E.U64: 3, E.F32: 4, E.F64: 4}.get(k, 0)
@@ -1397,6 +1508,15 @@ def c19_check(d, o, ctx):
                     exp = ctx.expired(p)
                     if (cls == "UA") != exp:
                         fails.append("C19-class: V1GET reports %d for a token that is %s" % (first[0], "expired" if exp else "not expired"))
+                elif cls in ("NF", "IA") and not ctx.fuzzy:
+                    # a plain path (no wildcard) that names a registered signal or a branch with signals below it
+                    # is neither unknown nor malformed: "not found" / "bad request" is not an applicable cause
+                    path, _ = _str(l, 3)
+                    plain = path and "*" not in path and len(path.encode()) <= 1000 and all(
+                        sg and not any(ch in UNI_WS or ch in ":" for ch in sg) for sg in path.split("."))
+                    if plain and "." in path and (path in ctx.byname or any(n.startswith(path + ".") for n in ctx.byname)):
+                        fails.append("C19-class: V1GET of the existing %s %s reports %d" % (
+                            "signal" if path in ctx.byname else "branch", path, first[0]))
             elif op in (V1SET, SDVSET, SDVUPD) and first and first[0] == 0 and len(first) > 1:
                 tbl = V1_CLASS if op == V1SET else None
                 for j in range(first[1]):
@@ -1713,7 +1833,7 @@ def monitor(lines, out, props):
                       fails.append("C03-get: p%d read %s without read permission%s" % (
                           d["p"], paths[d["id"]], " (token expired)" if ticked else ""))
                   v, i = E.dec_val(r, 1)
-                  exp = ack.get(d["id"])
+                  exp = None if d.get("target_only") else ack.get(d["id"])
                   if exp and (not same_bits(v, exp[0]) or r[i] != exp[1]):
                       fails.append("C01-read: %s reads %s@%d, last acknowledged write is %s@%d" % (
                           paths[d["id"]], E.show_val(v), r[i], E.show_val(exp[0]), exp[1]))
